@@ -568,6 +568,16 @@ def store_subscript(ip: Any, obj: Any, idx: Any, v: Any) -> None:
         raise Unsupported(f"item assignment on {obj!r}")
     if isinstance(obj, list) and isinstance(idx, SInt):
         raise Unsupported("symbolic index store into a concrete list")
+    if isinstance(obj, dict) and (isinstance(idx, Sym) or (not V.contains_sym(idx) and any(isinstance(k, Sym) for k in obj))):
+        # dict of concrete cardinality with symbolic scalar keys (held by identity): the store overwrites the
+        # first existing key equal to `idx` (one fork per key that may be equal), else inserts a new key
+        for k in list(obj):
+            c = V._eq(idx, k)
+            if c is True or (c is not False and ip.S.fork(c)):
+                obj[k] = v
+                return
+        obj[idx] = v
+        return
     if isinstance(obj, dict) and V.contains_sym(idx):
         raise Unsupported("symbolic key store into a concrete dict (model it as SMap)")
     if isinstance(obj, (Sym, tuple, str, bytes)) or obj is None:
@@ -1199,7 +1209,18 @@ def b_iter(ip: Any, x: Any) -> Any:
     return SObj(None, kind="iterator", seq=iteration(ip, x), pos=0)
 
 
+class EagerGen(list):
+    """Result of a generator expression over concrete-structure iterables: evaluated eagerly (its
+    conditions fork), still a ``list`` for every consumer; ``next()`` consumes from the front."""
+
+
 def b_next(ip: Any, it: Any, *default: Any) -> Any:
+    if isinstance(it, EagerGen):
+        if it:
+            return it.pop(0)
+        if default:
+            return default[0]
+        raise raise_(ip, StopIteration)
     if isinstance(it, SObj) and it.kind == "iterator":
         seq, pos = it.fields["seq"], it.fields["pos"]
         if isinstance(seq, list):
@@ -1835,6 +1856,32 @@ def call_concrete_method(ip: Any, recv: Any, name: str, bound: Any, args: list[A
                 raise PyRaise(e) from None
     if isinstance(recv, (set, frozenset)) and sym_args:
         raise Unsupported(f"set.{name} with symbolic argument")
+    import contextvars as _cv
+
+    if isinstance(recv, _cv.ContextVar) and name in ("set", "get", "reset"):
+        # context variables hold symbolic values in ghost state (never in the real variable)
+        store = ip.S.ghost.setdefault("__ctxvars__", {})
+        if name == "set":
+            tok = SObj(None, kind="CtxToken", var=recv, had=recv in store, old=store.get(recv))
+            store[recv] = args[0]
+            return tok
+        if name == "reset":
+            tok = args[0]
+            if isinstance(tok, SObj) and tok.kind == "CtxToken":
+                if tok.fields["had"]:
+                    store[recv] = tok.fields["old"]
+                else:
+                    store.pop(recv, None)
+                return None
+            raise Unsupported("ContextVar.reset with a foreign token")
+        if recv in store:
+            return store[recv]
+        if args:
+            return args[0]
+        try:
+            return recv.get()
+        except LookupError as e:
+            raise PyRaise(e) from None
     if isinstance(recv, _struct.Struct):
         return struct_call(ip, name, recv.format, args)
     import re as _re
